@@ -35,12 +35,12 @@ ASSUMPTIONS = [
     "schemas/headers where two slots fit (which one wins is not in the "
     "statement) are executed but unjudged",
 ]
-FLOORS = {"quick": {"judged": 8000, "expect_accept": 2000,
-                    "expect_reject": 2000},
+FLOORS = {"quick": {"judged": 25000, "expect_accept": 10000,
+                    "expect_reject": 8000},
           "thorough": {"judged": 250000, "expect_accept": 100000,
                        "expect_reject": 80000}}
-N_MODELS = {"quick": 300, "thorough": 12000}
-TEXTS = {"quick": 14, "thorough": 36}
+N_MODELS = {"quick": 1500, "thorough": 12000}
+TEXTS = {"quick": 20, "thorough": 36}
 
 
 def shards(tier):
